@@ -25,9 +25,9 @@ Proof.
     + intros H. inversion H as [|? ? ? ? Hx Hr]; subst. apply IH in Hr as [Hl Hr]. repeat split; assumption.
 Qed.
 
-Lemma meta_valid_spec im h c : meta_valid im h c = true <-> agrees im h c.
+Lemma meta_valid_spec im h c : meta_valid im h c = true <-> agrees_code im h c.
 Proof.
-  unfold meta_valid, agrees.
+  unfold meta_valid, agrees_code.
   destruct c; try (split; [reflexivity | reflexivity]); try apply list_nat_eqb_eq.
   all: destruct (islice im) as [isd|], (sdim h) as [msd|];
     try (split; [discriminate | intros [? [? [H1 [H2 _]]]]; congruence]).
@@ -68,7 +68,44 @@ Qed.
 Lemma agrees_exact h c :
   (is_slices c = true -> sdim h <> None) -> agrees (mk_img (shape h) (sdim h) (aff h)) h c.
 Proof.
-  intros Hs. destruct c; cbn [agrees ishape islice iaff]; try reflexivity; try exact I.
+  intros Hs. destruct c; cbn [agrees_code ishape islice iaff]; try reflexivity; try exact I.
+  all: destruct (sdim h) as [d|]; [|exfalso; apply (Hs eq_refl); reflexivity].
+  all: exists d, d; repeat split; try reflexivity.
+  all: apply close_vec_refl; vm_compute; discriminate.
+Qed.
+
+Lemma agrees_dirb_spec im h c : agrees_dirb im h c = true <-> agrees_dir im h c.
+Proof.
+  unfold agrees_dirb, agrees_dir.
+  destruct c; try (split; [reflexivity | reflexivity]); try apply list_nat_eqb_eq.
+  all: destruct (islice im) as [isd|], (sdim h) as [msd|];
+    try (split; [discriminate | intros [? [? [H1 [H2 _]]]]; congruence]).
+  all: rewrite !andb_true_iff, Nat.eqb_eq, allclose_spec, ?list_nat_eqb_eq.
+  - split.
+    + intros [[Hn Ha] Ht]. exists isd, msd. repeat split; assumption.
+    + intros [? [? [H1 [H2 [Hn [Ha Ht]]]]]]. injection H1 as <-; injection H2 as <-. repeat split; assumption.
+  - split.
+    + intros [[Hn Ha] _]. exists isd, msd. repeat split; assumption.
+    + intros [? [? [H1 [H2 [Hn [Ha _]]]]]]. injection H1 as <-; injection H2 as <-. repeat split; assumption.
+  - split.
+    + intros [[Hn Ha] Ht]. exists isd, msd. repeat split; assumption.
+    + intros [? [? [H1 [H2 [Hn [Ha Ht]]]]]]. injection H1 as <-; injection H2 as <-. repeat split; assumption.
+Qed.
+
+(** where the slice row equals the slice column (both affines), the code's test IS the direction test *)
+Lemma agrees_code_dir im h c : slice_sym im h -> (agrees_code im h c <-> agrees_dir im h c).
+Proof.
+  intros [Hi Hm]. unfold agrees_code, agrees_dir.
+  destruct c; try reflexivity.
+  all: split; intros [isd [msd [H1 [H2 [Hn [Ha Ht]]]]]]; exists isd, msd; repeat split; try assumption;
+    specialize (Hi _ H1); specialize (Hm _ H2); unfold row_eq_col, row3 in Hi, Hm;
+    [rewrite <- Hi, <- Hm | rewrite Hi, Hm]; exact Ha.
+Qed.
+
+Lemma agrees_dir_exact h c :
+  (is_slices c = true -> sdim h <> None) -> agrees_dir (mk_img (shape h) (sdim h) (aff h)) h c.
+Proof.
+  intros Hs. destruct c; cbn [agrees_dir ishape islice iaff]; try reflexivity; try exact I.
   all: destruct (sdim h) as [d|]; [|exfalso; apply (Hs eq_refl); reflexivity].
   all: exists d, d; repeat split; try reflexivity.
   all: apply close_vec_refl; vm_compute; discriminate.
@@ -241,7 +278,7 @@ Section WithV.
     rewrite (proj2 (meta_valid_spec im _ c) Ha). cbn [negb].
     rewrite Hlen, Nat.eqb_refl, Hidx. cbn [negb].
     unfold pos_of, dims, ndim in *.
-    destruct c; try contradiction; cbn [agrees] in Ha.
+    destruct c; try contradiction; cbn [agrees_code] in Ha.
     - (* GSlices *)
       destruct Ha as [isd [msd [Hi [Hm [Hn [_ Ht]]]]]]. rewrite Hi, Hm in *.
       specialize (Hsd _ eq_refl). specialize (Hisl _ eq_refl). clear Hsl Hvis Hin Hent Hl Hidx.
